@@ -10,7 +10,13 @@ NOTES = ['operation alphabet: createAnalyticalFeature, removeAnalyticalFeature, 
          'list initialisers have the length of the track (a shorter list raises half-way through the creation loop: outside the quantifier)',
          'operator objects (Operator.X applied directly) are covered by C02\'s objects stream; values are exact rationals']
 nan = float('nan')
-NAMES = ['a', 'b', 'c', 's', 'a', 'b', 'x', 'y', 'idx', 't']
+NAMES = ['a', 'b', 'c', 's', 'a', 'b', 'x', 'y', 'idx', 't', 'lbl']
+TEXTS = {'bus': 7001.0, 'walk': 7002.0, 'tram': 7003.0}      # text values (as read from a non-numeric CSV column): the model sees a code per distinct text
+
+
+def enc(l):
+    return [TEXTS.get(v, 7900.0 + ord(v[0]) if v else 7900.0) if isinstance(v, str) else (None if isnan(float(v)) else float(v)) for v in l]
+
 ERRC = {'AnalyticalFeatureError': 'AFError', 'KeyError': 'KeyError', 'TypeError': 'TypeError', 'IndexError': 'IndexError', 'ZeroDivisionError': 'ZeroDiv', 'ValueError': 'ValueError'}
 
 
@@ -21,10 +27,12 @@ def gen_history(rng, depth, with_expr=True):
     for _ in range(depth):
         k = rng.choice(['C', 'C', 'R', 'D', 'L', 'U', 'I', 'I', 'O', 'F', 'E', 'E'] if with_expr else ['C', 'C', 'R', 'D', 'L', 'U', 'I', 'I', 'O', 'F'])
         nm = rng.choice(NAMES)
-        if k in ('C', 'L', 'U', 'I', 'F') and nm not in ('x', 'y', 'idx', 't'):
+        if k in ('C', 'L', 'U', 'I', 'F') and nm not in ('x', 'y', 'idx', 't', 'lbl'):
             created.append(nm)
         val = lambda: rng.choice([0, 1, 2, 3, -1, 0.5, 4])
         init = ['s', val()] if rng.random() < 0.5 else ['l', [val() for _ in range(n)]]
+        if nm == 'lbl' and rng.random() < 0.7:
+            init = ['t', rng.choice(sorted(TEXTS))]       # a scalar initialiser that is a text
         if k == 'C':
             ops.append(['C', nm, init])
         elif k == 'R':
@@ -69,7 +77,6 @@ def gen_history(rng, depth, with_expr=True):
 
 def observe(tr):
     names = tr.getListAnalyticalFeatures()
-    enc = C02.enc
     return {'names': names, 'cols': [enc(tr[k]) for k in names], 'x': enc(tr.getX()), 'y': enc(tr.getY()), 'z': enc(tr.getZ()),
             'nfeat': [len(tr.getObs(i).features) for i in range(tr.size())],
             't': [o.timestamp.toAbsTime() for o in tr]}
@@ -83,7 +90,7 @@ def run_impl(case):
     steps = []
     for op in case['ops']:
         k, nm = op[0], op[1]
-        mk = lambda init: float(init[1]) if init[0] == 's' else [float(v) for v in init[1]]
+        mk = lambda init: float(init[1]) if init[0] == 's' else (init[1] if init[0] == 't' else [float(v) for v in init[1]])
         try:
             if k == 'C':
                 tr.createAnalyticalFeature(nm, mk(op[2]))
@@ -127,6 +134,8 @@ def _col(l):
 
 
 def init_lit(init):
+    if init[0] == 't':
+        return 'IScalar (Some %s)' % q(TEXTS[init[1]])
     return 'IScalar (Some %s)' % q(init[1]) if init[0] == 's' else 'IList %s' % _col(init[1])
 
 
@@ -178,7 +187,7 @@ def oracle(case, obs):
         if st.get('stop'):
             return None
         k, nm = op[0], op[1]
-        col = lambda init: [float(init[1])] * n if init[0] == 's' else [float(v) for v in init[1]]
+        col = lambda init: [float(init[1])] * n if init[0] == 's' else ([TEXTS[init[1]]] * n if init[0] == 't' else [float(v) for v in init[1]])
         if k == 'C':
             if nm not in virt and nm not in spec:
                 spec[nm] = col(op[2])
